@@ -5,7 +5,7 @@ CONSTANTS
   TTL = 2
   Lives = {0, 2}
   Serial = {FALSE, TRUE}
-  Trashing = {TRUE}
+  Trashing = {TRUE, FALSE}
   WKinds = {"none", "put", "touch", "pull"}
   TKinds = {"none", "delete", "list_eq", "list_stale"}
   XKinds = {"none", "untrash", "empty", "index"}
